@@ -281,7 +281,6 @@ theorem wcNbrs_getElem (t : Nat → Rat) (x : List Rat) :
       have hj : j < r.length := by simpa using hi
       obtain ⟨a, b⟩ := ih j hj
       have e1 : 2 * (j + 1) = 2 * j + 1 + 1 := by omega
-      have e2 : 2 * (j + 1) + 1 = 2 * j + 1 + 1 + 1 := by omega
       simp only [wcNbrs, List.flatMap_cons, List.cons_append, List.nil_append] at a b ⊢
       rw [e1]
       simp only [List.getElem?_cons_succ, List.getElem_cons_succ]
